@@ -1,7 +1,14 @@
 import DiffxVerif.Properties.C06
+import DiffxVerif.Properties.C05Tree
 #print axioms Diffx.C06.C06_options_verbatim
 #print axioms Diffx.C06.C06_reserialise_is_run
 #print axioms Diffx.C06.C06_preamble_indent_recorded
 #print axioms Diffx.C06.C06_unknown_option_witness
 #print axioms Diffx.C05.C05_load_shape
 #print axioms Diffx.C05.C05_load_errors
+#print axioms Diffx.C05.C06_tree_fixed_point
+#print axioms Diffx.C05.C06_parse_serialise
+#print axioms Diffx.C05.treeReLaws
+#print axioms Diffx.C05.C06_tree_instance
+#print axioms Diffx.DomRT.ReCallLaws
+#print axioms Diffx.DomRT.ReLaws
